@@ -55,6 +55,14 @@ def cases(tier, seed):
                             "group": ["/", "/resolutions/2", "/", "/a/b"][h % 4], "sibling": h % 8 in (1, 2, 7)}
 
 
+def many_cases(tier):
+    # thousands of chromosomes: the enum header of the renamed table does / does not fit HDF5's 64 KiB object header
+    for n, every, suffix in ([(3000, 2, "_renamed_to_a_much_longer_contig_name"), (1200, 1, "x")] if tier == "quick" else
+                             [(3000, 2, "_renamed_to_a_much_longer_contig_name"), (1200, 1, "x"), (5000, 1, "_long_long_long_name"),
+                              (2500, 3, "_unplaced_scaffold_with_a_long_accession")]):
+        yield "rn.many", {"n": n, "every": every, "suffix": suffix, "px": [[0, 0, 5], [0, n - 1, 2], [7, 9, 1], [n - 2, n - 1, 3]]}
+
+
 def run(tier, seed, only_case=None):
     r = Run("C18", tier, seed, replay=only_case is not None)
     r.rule = ("one case = (cooler on 1-3 chromosomes, fixed / variable / one-bin tables; chain of 1-3 partial injective renaming maps "
@@ -66,11 +74,11 @@ def run(tier, seed, only_case=None):
     r.assumptions = ["renaming maps are injective on the result (no two chromosomes get the same name)"]
     if only_case is None:
         r.model_check("MC_Cells", "MC_Cells.cfg")
-        cs = cases(tier, seed)
+        cs = list(cases(tier, seed)) + list(many_cases(tier))
     else:
         cs = [only_case]
     for drv, case, obs in run_cases(cs, chunk=4):
-        r.record(TRACE, drv, case, obs, len(case["renames"]) > 0)
+        r.record(TRACE, drv, case, obs, drv == "rn.many" or len(case["renames"]) > 0)
     r.exhaustive = False
     r.validate(TRACE)
     return r.finish()
